@@ -1942,7 +1942,13 @@ func removeFilesExcept(osys OS, dir, filename string) (retErr error) {
 		return err
 	}
 
-	for _, ent := range ents {
+	// Remove the newest files first (entries are sorted by name). If the
+	// process dies half way the files that remain must not look like a chain
+	// that continues past the exception file (a snapshot that rewinds a node
+	// that was ahead of its primary).
+	for i := len(ents) - 1; i >= 0; i-- {
+		ent := ents[i]
+
 		// Skip directories & exception file.
 		if ent.IsDir() || ent.Name() == filename {
 			continue
